@@ -155,7 +155,11 @@ def r4(ctx):
                 continue
             if st.verb == "INSERT" and st.table.lower() == "directives":
                 n += 1
-                rows += [tuple(r) if isinstance(r, (list, tuple)) else (r,) for r in (e[2] if e[3] == "executemany" else [e[2]])]
+                for r in (e[2] if e[3] == "executemany" else [e[2]]):
+                    if isinstance(r, dict):
+                        # named placeholders: the row in the order of the VALUES list
+                        r = [r.get(v[2]) if (isinstance(v, tuple) and v[0] == "param" and v[2] != "?") else v for v in st.values]
+                    rows.append(tuple(r) if isinstance(r, (list, tuple)) else (r,))
         ctx.ob("R4", rows == [("b",), ("a",), ("b",)], "finalisation writes one row per directive, in list order (no sorting, filtering or de-duplication)", func=fin,
                sig="directives [b, a, b] written as %s" % rows)
     ctx.ob("R4", n >= 1, "finalisation writes the directives to the database", func=fin, sig="directives persisted by _finalize" if n else "_finalize never inserts into `directives`")
@@ -165,7 +169,10 @@ def r4(ctx):
     sel = [s for s in execute_sites(ctx, pool) if s.stmts and s.stmts[0].verb == "SELECT" and s.stmts[0].tables() == ["directives"]]
     ctx.floor("R4", len(sel), 1, "SELECT ... FROM directives sites")
     st = sel[0].stmts[0]
-    ok = len(st.cols) == 1 and st.cols[0][0][0] == "col" and st.cols[0][0][2].lower() == "directive" and st.where is None and not st.distinct and not st.order_by
+    # an explicit ORDER BY rowid is the storage order, i.e. what the statement returns without it
+    plain_order = not st.order_by or (len(st.order_by) == 1 and st.order_by[0][0][0] == "col" and st.order_by[0][0][2].lower() in ("rowid", "_rowid_", "oid") and st.order_by[0][1] in (None, "asc"))
+    ok = len(st.cols) == 1 and st.cols[0][0][0] == "col" and st.cols[0][0][2].lower() == "directive" and st.where is None and not st.distinct and plain_order \
+        and getattr(st, "limit", None) is None
     ctx.ob("R4", ok, "opening a database reads every stored directive", node=sel[0].call, func=sel[0].func, sig="directives read: %s" % " ".join(sel[0].sql.text.split()))
     from ..flow import Flow, show
     fl = Flow(ctx, pool)
@@ -176,7 +183,8 @@ def r4(ctx):
     for g, x in asg:
         ts = fl.terms(x.value, g)
         shown = ", ".join(sorted(show(t_) for t_ in ts))
-        ok = ok or any(t_ == ("op", "listcomp", ("pos", key, 0)) for t_ in ts)
+        ok = ok or any(t_ in (("op", "listcomp", ("pos", key, 0)), ("op", "listcomp", ("key", key, "directive")), ("op", "listcomp", ("item", key, ("const", "directive"))))
+                       or (isinstance(t_, tuple) and t_[:2] == ("op", "listcomp") and "directive" in show(t_) and repr(key[1]) in repr(t_) and len(t_) == 3) for t_ in ts)
     ctx.ob("R4", ok, "db.directives is the list of the stored strings in row order", func=dbi, sig="db.directives := %s" % ("[row[0] for each row]" if ok else shown))
 
 
